@@ -16,6 +16,7 @@ import ConjureVerif.Model.Call
 import ConjureVerif.Model.Idents
 import ConjureVerif.Model.Wire
 import ConjureVerif.Model.GenOrder
+import ConjureVerif.Model.Emit
 /-
 Line-protocol driver.  One operation per input line: `<property> <op> <args…>`; one output line per
 operation.  Imports models only (no Mathlib, no proofs), so it links as a native executable.
@@ -34,8 +35,10 @@ def dispatch (line : String) : String :=
   | "C14" :: rest => DoubleOps.handle rest
   | "C02" :: rest => Wire.handle rest
   | "C03" :: rest => Idents.handle rest
+  | "C04" :: "emit" :: rest => Emit.handle Gen.Keywords.escaped ("emit" :: rest)
   | "C04" :: rest => Call.handle rest
   | "C20" :: rest => GenOrder.handle rest
+  | "C19" :: "emit" :: rest => Emit.handle Gen.Keywords.escaped ("emit" :: rest)
   | "C19" :: rest => Endpoint.handle rest
   | "C09" :: rest => Endpoint.handle rest
   | "C17" :: rest => ErrorM.handle rest
